@@ -563,3 +563,58 @@ def traversal_rule(ctx, rep, rid="TRAV", only=None, floor=56):
                               "it: sub-expressions nested in that construct are never visited by this pass" % (b.name, V), site(b, (tg, 0)))
     rep.count("structural recursions over Regex", nfun)
     rep.floor(rid, floor, "container arms")
+
+
+# ------------------------------------------------------------------------------------------------
+# L-MONO: an analysis table is never updated under a growth test of a *different* table
+# ------------------------------------------------------------------------------------------------
+_TABLE_UPDATE = re.compile(r"(::extend|::insert|::append|::extend_from_slice|::push)$")
+
+
+def _sema_fields(e):
+    """SemanticData fields the receiver chain of `e` is rooted in (map keys and other arguments are not followed)"""
+    while e[0] == "call" and e[2]:
+        e = e[2][0]
+    return {x[3] for x in walk(e) if x[0] == "field" and x[2].endswith("SemanticData")}
+
+
+def _len_tables(e):
+    out = set()
+    for x in walk(e):
+        if x[0] == "call" and re.search(r"::len$", x[1]) and x[2]:
+            out |= _sema_fields(x[2][0])
+    return out
+
+
+def monotone_rule(ctx, rep, rid="MONO"):
+    rep.rule(rid, "GUARD: in the semantic pass every update (`extend`, `insert`, ..) of a table of SemanticData (first, follow, predict, recovery, "
+                  "left_rec_local_follow, used, ..) is free of guards that compare the size (`len()`) of a different table: the tables are "
+                  "computed by a joint monotone fixpoint, and a table that is only updated when another one happened to grow misses every "
+                  "contribution that arrives on a visit where the other table was already complete (e.g. the outside follow of a left-recursive "
+                  "rule used for conflict E012 / the Pratt loop's exit)")
+    lib = ctx.lelwel()
+    n = 0
+    for b in user_bodies(lib):
+        if not b.name.startswith("frontend::sema::"):
+            continue
+        pr = P(b)
+        for pt, name, decl, args, t in calls(b):
+            if not (_TABLE_UPDATE.search(name) or _TABLE_UPDATE.search(decl)) or not args:
+                continue
+            tabs = _sema_fields(args[0])
+            if not tabs:
+                continue
+            n += 1
+            bad = None
+            for e, truth in gates(b, pt[0]):
+                other = _len_tables(e) - tabs
+                if other:
+                    bad = (e, other)
+            if bad:
+                rep.violation(rid, "%s|%s|guarded-by-len(%s)" % (b.name, ",".join(sorted(tabs)), ",".join(sorted(bad[1]))),
+                              "%s: the update of table `%s` is only executed under a condition on the size of table `%s` (`%s`): contributions that "
+                              "arrive when that other table no longer grows are lost" % (b.name, ",".join(sorted(tabs)), ",".join(sorted(bad[1])), show(bad[0], 160)), site(b, pt))
+            else:
+                rep.ok(rid, "%s: update of `%s` carries no size guard of another table" % (b.name, ",".join(sorted(tabs))))
+    rep.count("table updates examined", n)
+    rep.floor(rid, 20, "table updates in the semantic pass")
